@@ -8,7 +8,7 @@ id=$1; wt=$2; prop=$3
 out=/verif/seeded/$id
 mkdir -p $out
 cd $wt || exit 2
-git diff -- libs > $out/patch.diff
+git add -N libs 2>/dev/null; git diff -- libs > $out/patch.diff
 cp _mut/demo.cpp _mut/demo_build.txt _mut/notes.md $out/ 2>/dev/null
 log=$out/confirm.log
 : > $log
